@@ -72,12 +72,12 @@ theorem C05_rc_build (F : BodyFn) (P : Project) (cfg : Cfg) (w : World) (g : G) 
         exact absurd hexit (by decide)
       · exact h
 
-/-- **C05_no_redo.** Suppose the killed build completed the protocol of `spec` with SUCCESS — body and teardown went through
+/-- **C05_no_redo_step** (the local form). Suppose the killed build completed the protocol of `spec` with SUCCESS — body and teardown went through
 and every row of `spec` was committed (`hok`) — and whatever happened afterwards, before the kill and in the recovery build
 before `spec`'s turn (`later`), left `spec`'s module, dependencies and products alone. Then a non-forced recovery build does
 not execute `spec` again: its protocol raises before the body, the body log and the session are unchanged. (`hT`: the
 neighbours of a task are nodes, not other tasks — the graph is bipartite.) -/
-theorem C05_no_redo (F : BodyFn) (P : Project) (g : G) (cfg cfg' : Cfg) (s s' : Sess) (spec : TaskSpec)
+theorem C05_no_redo_step (F : BodyFn) (P : Project) (g : G) (cfg cfg' : Cfg) (s s' : Sess) (spec : TaskSpec)
     (hT : ∀ v ∈ neighbours g spec.id, isTaskV v = true → v = tv spec.id)
     (hr : (runPhases F P g cfg s spec).1 = .none)
     (hok : (updateStates P g (runPhases F P g cfg s spec).2.w spec.id (neighbours g spec.id)).2 = true)
@@ -88,6 +88,45 @@ theorem C05_no_redo (F : BodyFn) (P : Project) (g : G) (cfg cfg' : Cfg) (s s' : 
     rw [hs']
     exact rowsMatch_frame P g spec.id hT later _ hav (rowsMatch_after_protocol F P g cfg s spec hr hok)
   exact ⟨protocol_rowsMatch_log F P g cfg' s' spec hforce hm, (runPhases_rowsMatch F P g cfg' s' spec hforce hm).1⟩
+
+/-- **C05_no_redo.** A build is killed at an arbitrary point `j` of the protocol of `tstar`, after it had processed the tasks
+`done`, each reported SUCCESS or SKIP_UNCHANGED (so their completion had been logged). Then a non-forced recovery build — any
+schedule, any selection or failure limit, whatever else it executes, fails or skips — does not execute any task of `done`
+again. (With `C05_converge_partial`: the others run again if they need to, these never do.) -/
+theorem C05_no_redo (F : BodyFn) (P : Project) (cfg cfg' : Cfg) (g : G) (marks marks' : List Nat)
+    (hs : WFSpec P) (hdag : createDag P cfg = .ok (g, marks))
+    (so0 : Sorter) (hso : Sorter.fromDag g isTaskV (prioFn P) = .ok so0)
+    (w0 : World) (done : List Nat) (tstar : Nat) (specS : TaskSpec) (so1 soS : Sorter) (s1 sS : Sess)
+    (hloop1 : buildLoop F P g cfg so0 { w := w0, skipMarks := marks } done = .ok (so1, s1))
+    (hgood1 : ∀ rep ∈ s1.reports, GoodOutcome rep.2) (hcr1 : s1.crashed = false)
+    (hpickS : buildLoop F P g cfg so1 s1 [tstar] = .ok (soS, sS)) (hfindS : Project.find? P tstar = some specS) (j : Nat)
+    (picks2 : List Nat) (so3 : Sorter) (s3 : Sess)
+    (hloop2 : buildLoop F P g cfg' so0
+      { w := applySteps s1.w ((protocolSteps F P g cfg s1 specS).take j), skipMarks := marks' } picks2 = .ok (so3, s3))
+    (hforce : cfg'.force = false) : ∀ t ∈ done, t ∉ s3.log := by
+  have hwf := wf_of_createDag hdag hs
+  have hbip := hbip_of_createDag hdag
+  have hD1 : ∀ t' ∈ done, RowsMatch P g s1.w t' := by
+    have := rowsMatch_loop hwf hbip cfg done so0 _ so1 s1 [] (fun _ h => by cases h) hloop1 hgood1 hcr1
+      (frameOrdered_of_loop F hdag hs so0 so1 _ s1 done hso hloop1)
+    simpa using this
+  have hav := avoids_of_loop F hdag hs so0 so1 _ s1 done hso hloop1
+  have hnot : tstar ∉ done := by
+    have hnd := (C01_once F P cfg g so0 soS _ sS (done ++ [tstar]) hso
+      (buildLoop_append_ok F P g cfg done [tstar] so0 _ so1 s1 (soS, sS) hloop1 hpickS)).1
+    exact fun h => (List.nodup_append.1 hnd).2.2 tstar h tstar (by simp) rfl
+  have hidS : specS.id = tstar := find?_id hfindS
+  have hDw : ∀ t' ∈ done,
+      RowsMatch P g (applySteps s1.w ((protocolSteps F P g cfg s1 specS).take j)) t' := by
+    intro t' ht'
+    apply rowsMatch_frame P g t' (hbip t') _ _ _ (hD1 t' ht')
+    intro x hx
+    exact protocolSteps_avoid F P g cfg s1 specS t' (by rw [hidS]; exact fun h => hnot (h ▸ ht'))
+      (hav tstar specS hfindS hnot t' ht') x (List.mem_of_mem_take hx)
+  obtain ⟨_, l, hl, hl'⟩ := noredo_loop F hbip hs.noPersist cfg' hforce done hav picks2 so0 _ so3 s3 hDw hloop2
+  intro t ht hin
+  rw [hl] at hin
+  exact hl' t (by simpa using hin) ht
 
 /-- **C05_unchanged_iff_rows** ("reports unchanged" is "all rows match"): the link between the outcome pytask shows and
 `RowsMatch`, in both directions, for non-forced builds. -/
@@ -244,6 +283,18 @@ example : ∃ (so3 : Sorter) (s3 : Sess),
   exact (C05_converge_partial c05F c05P {} {} c05G [] [] c05_wfspec (by rfl) (by rfl) c05So (by rfl)
     c05W (C05_rc_init _ _ _) [] 0 c05T0 c05So _ { w := c05W } _ rfl (by intro rep h; cases h) rfl rfl 4
     [0, 1] _ _ rfl (by decide) (by decide) (by intro t ht; simp [c05P] at ht; rcases ht with rfl | rfl <;> decide)).1
+
+/-- `C05_no_redo` instantiated: task 0 completed, the build is killed inside the row commits of task 1 (after its product write
+and one row), the recovery build processes 0 and 1: its hypotheses hold, and it yields that task 0 is not executed again. -/
+example : ∃ (so1 soS so3 : Sorter) (s1 sS s3 : Sess),
+    buildLoop c05F c05P c05G {} c05So { w := c05W, skipMarks := [] } [0] = .ok (so1, s1) ∧
+    buildLoop c05F c05P c05G {} so1 s1 [1] = .ok (soS, sS) ∧
+    buildLoop c05F c05P c05G {} c05So
+      { w := applySteps s1.w ((protocolSteps c05F c05P c05G {} s1 c05T1).take 2), skipMarks := [] } [0, 1] = .ok (so3, s3) ∧
+    s3.log = [1] ∧ ∀ t ∈ [0], t ∉ s3.log := by
+  refine ⟨_, _, _, _, _, _, rfl, rfl, rfl, by decide, ?_⟩
+  exact C05_no_redo c05F c05P {} {} c05G [] [] c05_wfspec (by rfl) c05So (by rfl) c05W [0] 1 c05T1 _ _ _ _ rfl (by decide) rfl
+    rfl rfl 2 [0, 1] _ _ rfl rfl
 
 /-- the F20 witness in the model: after the kill and the edit, the recovery build reports the task unchanged and leaves the
 stale product (`0` = "agree") although the inputs now differ (`1`, `0`) -/
